@@ -960,7 +960,26 @@ func ruleC02Align(r *Run) {
 	r.Floor(rule, 2)
 	m := newTierModel(w)
 	pf := m.parse
-	good := w.Fn("rux", "Route.goodRegexString")
+	good := w.FnOpt("rux", "Route.goodRegexString")
+	// the per-variable check may have been renamed, turned into a plain function or written in line: it is the
+	// code that looks for '(' in the variable's regex and panics
+	isVarCheck := func(f *ssa.Function) bool {
+		if f == nil || !w.InModule(f) || f.Blocks == nil {
+			return false
+		}
+		looks, panics := false, false
+		eachInstr(f, func(in ssa.Instruction) {
+			if c, ok := in.(*ssa.Call); ok && calleeName(c) == "strings.IndexByte" {
+				if k, okc := constInt(c.Call.Args[1]); okc && k == '(' {
+					looks = true
+				}
+			}
+			if panicsAt(in) {
+				panics = true
+			}
+		})
+		return looks && panics
+	}
 	// one iteration of the variable loop: the block that loads the range element of the
 	// variable list, up to the jump back to the loop header
 	var body *ssa.BasicBlock
@@ -990,6 +1009,7 @@ func ruleC02Align(r *Run) {
 	for _, p := range paths {
 		var nameAppends, pairAppends, goods []ssa.Instruction
 		var appendedName, checkedName, checkedRe, pairRe ssa.Value
+		inlineCheck := false
 		for _, b := range p.blocks {
 			for _, in := range b.Instrs {
 				switch x := in.(type) {
@@ -1005,7 +1025,15 @@ func ruleC02Align(r *Run) {
 						}
 					}
 				case *ssa.Call:
-					if staticCallee(x) == good {
+					if calleeName(x) == "strings.IndexByte" && good == nil {
+						// the check written in line: IndexByte(v, '(')
+						if k, okc := constInt(x.Call.Args[1]); okc && k == '(' {
+							goods = append(goods, in)
+							inlineCheck = true
+							checkedRe = resolvePhi(x.Call.Args[0], p)
+						}
+					}
+					if sc := staticCallee(x); sc != nil && (sc == good || (good == nil && isVarCheck(sc))) {
 						goods = append(goods, in)
 						// (n, v) are the last two arguments (the receiver, if any, comes first)
 						if na := len(x.Call.Args); na >= 2 {
@@ -1031,6 +1059,10 @@ func ruleC02Align(r *Run) {
 		}
 		nBody++
 		ok := len(nameAppends) == 1 && len(pairAppends) == 1 && len(goods) == 1 && appendedName != nil && appendedName == checkedName && pairRe != nil && pairRe == checkedRe
+		if inlineCheck {
+			// no call that names the variable: the regex that is searched for '(' is the one that becomes the group
+			ok = len(nameAppends) == 1 && len(pairAppends) == 1 && len(goods) >= 1 && appendedName != nil && pairRe != nil && pairRe == checkedRe
+		}
 		shape := fmt.Sprintf("names=%d pairs=%d checks=%d same-name=%v same-regex=%v", len(nameAppends), len(pairAppends), len(goods), appendedName != nil && appendedName == checkedName, pairRe != nil && pairRe == checkedRe)
 		if !shapes[shape] || !ok {
 			shapes[shape] = true
